@@ -42,6 +42,19 @@ Definition iface_ids : list N := map N.of_nat (seq 0 13).
 (* every interface implemented by an interface type is implemented by the dynamic types of its values *)
 Definition flags_sub (a b : N) : bool := forallb (fun i => implb (N.testbit a i) (N.testbit b i)) iface_ids.
 
+(* only a struct is time.Time, only a slice is []byte *)
+Definition wf_flags (t : ty) : bool :=
+  (negb (flag t w_Time) || match t with TStruct _ _ => true | _ => false end) &&
+  (negb (flag t w_ByteSlice) || match t with TSlice _ _ => true | _ => false end).
+
+Definition typed_fields (at_ : ty -> value -> bool) : list (finfo * ty) -> list value -> bool :=
+  fix go (fs : list (finfo * ty)) (vs : list value) {struct vs} : bool :=
+    match fs, vs with
+    | [], [] => true
+    | (_, ft) :: fs', fv :: vs' => at_ ft fv && go fs' vs'
+    | _, _ => false
+    end.
+
 (* has_typeb env t v: v is a value of the type t, t being met inside the composites env (t is not a back reference) *)
 Fixpoint has_typeb (env : list ty) (t : ty) (v : value) {struct v} : bool :=
   let at_ (tc : ty) (x : value) : bool :=
@@ -49,13 +62,14 @@ Fixpoint has_typeb (env : list ty) (t : ty) (v : value) {struct v} : bool :=
     | None => false
     | Some (env', t') => has_typeb env' t' x
     end in
+  wf_flags t &&
   match t with
   | TRec _ => false
   | TLeaf k fl =>
     if k =? k_Interface then
       match v with
       | VNil => true
-      | VIface d x => negb (is_iface d) && negb (is_rec d) && closedb 0 d && flags_sub fl (flags_of d) && has_typeb [] d x
+      | VIface d x => negb (is_iface d) && negb (is_rec d) && closedb 0 d && wf_tyb d && flags_sub fl (flags_of d) && has_typeb [] d x
       | _ => false
       end
     else if k =? k_Bool then match v with VBool _ => true | _ => false end
@@ -81,12 +95,7 @@ Fixpoint has_typeb (env : list ty) (t : ty) (v : value) {struct v} : bool :=
     if flag t w_Time then match v with VTime _ => true | _ => false end
     else match v with
          | VStruct vs =>
-           (fix fields (fs : list (finfo * ty)) (vs : list value) {struct vs} : bool :=
-              match fs, vs with
-              | [], [] => true
-              | (_, ft) :: fs', fv :: vs' => at_ ft fv && fields fs' vs'
-              | _, _ => false
-              end) fs vs
+           typed_fields at_ fs vs
          | _ => false
          end
   end.
@@ -294,6 +303,24 @@ Section Show.
       end
     else None.
 
+  (* the members of the object written for a struct; None: wrong number of values *)
+  Definition struct_members (mem : finfo -> ty -> value -> option (bytes * result)) :
+      list (finfo * ty) -> list value -> option (list (bytes * result)) :=
+    fix go (fs : list (finfo * ty)) (vs : list value) {struct vs} : option (list (bytes * result)) :=
+      match fs, vs with
+      | [], [] => Some []
+      | (fi, ft) :: fs', fv :: vs' =>
+        match go fs' vs' with
+        | None => None
+        | Some ms =>
+          match mem fi ft fv with
+          | Some m => Some (m :: ms)
+          | None => Some ms
+          end
+        end
+      | _, _ => None
+      end.
+
   (* the strings of the keys of a map, in iteration order: the first failure is returned *)
   Fixpoint first_key_error (ks : list result) : option result :=
     match ks with
@@ -304,21 +331,46 @@ Section Show.
 
   Definition key_of (r : result) : bytes := match r with ROk b => b | _ => [] end.
 
-  Fixpoint show_val (env : list ty) (t : ty) (v : value) {struct v} : result :=
-    (* t: the dynamic type of the value, never an interface type nor a back reference.
-       show_at: value.Interface() at a position of static type tc inside t *)
-    let show_at (tc : ty) (x : value) : result :=
-      match resolve (t :: env) tc with
-      | None => RStuck
-      | Some (env', t') =>
-        if is_iface t' then
-          match x with
-          | VNil => show_nil
-          | VIface d x' => if is_iface d || is_rec d then RStuck else show_val [] d x'
-          | _ => RStuck
-          end
-        else show_val env' t' x
-      end in
+  (* what the recursion over the components of a composite value produced *)
+  Inductive kids :=
+  | KNone
+  | KSeq (rs : list result)                         (* the elements of a slice or array, shown *)
+  | KPtr (r : result)                               (* the pointee, shown *)
+  | KMap (krs : list (result * result))             (* per entry: the string of the key, the element shown *)
+  | KStruct (ms : option (list (bytes * result))).  (* the members of the object; None: wrong number of fields *)
+
+  (* value.Interface() at a position of static type tc inside a composite whose
+     environment is env: an interface position yields the dynamic value *)
+  Definition show_at_with (rec : list ty -> ty -> value -> result) (env : list ty) (tc : ty) (x : value) : result :=
+    match resolve env tc with
+    | None => RStuck
+    | Some (env', t') =>
+      if is_iface t' then
+        match x with
+        | VNil => show_nil
+        | VIface d x' => if is_iface d || is_rec d then RStuck else rec [] d x'
+        | _ => RStuck
+        end
+      else rec env' t' x
+    end.
+
+  (* the string of the key k of a map whose key type is tk *)
+  Definition key_at (env : list ty) (tk : ty) (k : value) : result :=
+    match resolve env tk with
+    | None => RStuck
+    | Some (_, tk') =>
+      if is_iface tk' then
+        match k with
+        | VNil => key_string None VNil
+        | VIface d k' => key_string (Some d) k'
+        | _ => RStuck
+        end
+      else key_string (Some tk') k
+    end.
+
+  (* one step of showInJS / showInJSON on a value of dynamic type t (never an
+     interface type nor a back reference), the components being already shown *)
+  Definition show_node (t : ty) (v : value) (k : kids) : result :=
     match eval_tree (dyn_val false (Some t)) (tree_assoc show_tbl (kind_of t)) with
     | OHandled c =>
       if c =? w_Time then
@@ -345,67 +397,36 @@ Section Show.
           | _ => RStuck
           end
         else
-          match v, t with
+          match v, k with
           | VNilRef, _ => ROk s_null
-          | VSeq xs, TSlice _ e => array_lit (map (show_at e) xs)
+          | VSeq _, KSeq rs => array_lit rs
           | _, _ => RStuck
           end
       else if c =? k_Array then
-        match v, t with
-        | VSeq xs, TArr _ e => array_lit (map (show_at e) xs)
+        match v, k with
+        | VSeq _, KSeq rs => array_lit rs
         | _, _ => RStuck
         end
       else if c =? k_Pointer then
-        match v, t with
+        match v, k with
         | VNilRef, _ => ROk s_null
-        | VPtr x, TPtr _ e => show_at e x
+        | VPtr _, KPtr r => r
         | VOpaque, _ => RPanic                 (* reflect: Value.Elem of an unsafe pointer *)
         | _, _ => RStuck
         end
       else if c =? k_Struct then
-        match v, t with
-        | VStruct vs, TStruct _ fs =>
-          match (fix fields (fs : list (finfo * ty)) (vs : list value) {struct vs} : option (list (bytes * result)) :=
-                   match fs, vs with
-                   | [], [] => Some []
-                   | (fi, ft) :: fs', fv :: vs' =>
-                     match fields fs' vs' with
-                     | None => None
-                     | Some ms =>
-                       let ft' := match resolve (t :: env) ft with Some (_, t') => Some t' | None => None end in
-                       match field_member fi ft' fv (if f_exported fi then show_at ft fv else RStuck) with
-                       | Some m => Some (m :: ms)
-                       | None => Some ms
-                       end
-                     end
-                   | _, _ => None
-                   end) fs vs with
-          | Some ms => object_lit ms
-          | None => RStuck
-          end
+        match v, k with
+        | VStruct _, KStruct (Some ms) => object_lit ms
         | _, _ => RStuck
         end
       else if c =? k_Map then
-        match v, t with
+        match v, k with
         | VNilRef, _ => ROk s_null
-        | VMap kvs, TMap _ tk te =>
-          let key_at (k : value) : result :=
-            match resolve (t :: env) tk with
-            | None => RStuck
-            | Some (_, tk') =>
-              if is_iface tk' then
-                match k with
-                | VNil => key_string None VNil
-                | VIface d k' => key_string (Some d) k'
-                | _ => RStuck
-                end
-              else key_string (Some tk') k
-            end in
-          let keyed := map (fun kx : value * value => (key_at (fst kx), show_at te (snd kx))) kvs in
+        | VMap _, KMap krs =>
           (* every key is converted first: a failure returns before anything is written *)
-          match first_key_error (map fst keyed) with
+          match first_key_error (map fst krs) with
           | Some e => e
-          | None => object_lit (sort_kv (map (fun kr : result * result => (key_of (fst kr), snd kr)) keyed))
+          | None => object_lit (sort_kv (map (fun kr : result * result => (key_of (fst kr), snd kr)) krs))
           end
         | _, _ => RStuck
         end
@@ -418,6 +439,36 @@ Section Show.
     | OPanic => RPanic
     | _ => RStuck
     end.
+
+  Fixpoint show_val (env : list ty) (t : ty) (v : value) {struct v} : result :=
+    show_node t v
+      match v with
+      | VSeq xs =>
+        match t with
+        | TSlice _ e | TArr _ e => KSeq (map (show_at_with show_val (t :: env) e) xs)
+        | _ => KNone
+        end
+      | VPtr x =>
+        match t with
+        | TPtr _ e => KPtr (show_at_with show_val (t :: env) e x)
+        | _ => KNone
+        end
+      | VMap kvs =>
+        match t with
+        | TMap _ tk te =>
+          KMap (map (fun kx : value * value => (key_at (t :: env) tk (fst kx), show_at_with show_val (t :: env) te (snd kx))) kvs)
+        | _ => KNone
+        end
+      | VStruct vs =>
+        match t with
+        | TStruct _ fs =>
+          KStruct (struct_members (fun fi ft fv =>
+            field_member fi (match resolve (t :: env) ft with Some (_, t') => Some t' | None => None end) fv
+                         (show_at_with show_val (t :: env) ft fv)) fs vs)
+        | _ => KNone
+        end
+      | _ => KNone
+      end.
 
   (* {{ v }} where the expression has the static type t (closed) *)
   Definition show_top (t : ty) (v : value) : result :=
